@@ -41,6 +41,40 @@ CHECKS = {
         note="Tokens are C++-lexical tokens, defaults opaque. One trivia per gap per module in the quick tier (rotating "
              "through the pool). Three classes of genuine deviations are known findings (see known_findings.json).",
         design="6/C12"),
+    "C02": dict(
+        category="model_checking",
+        technique="TLA+ substitution/instantiation oracle (Instantiate.tla) evaluated by TLC on every case; leafwise "
+                  "comparison with the implementation's instantiated tree; deviation model for classification",
+        text="For TLC-derived modules (random walks; path-exhaustive type universe x every position with plain, "
+             "namespaced, templated and numeric arguments; signature and instantiation-shape universes) and the fixtures, "
+             "TLC computes the substituted C++ spelling and qualifier flags of every argument, return, property, "
+             "operator, dunder and base-class type of every instantiation; the harness compares them with to_cpp() and "
+             "the flags of the real instantiated objects.",
+        note="Spellings compared modulo blanks after commas. Nesting depth 1 (quick) / 2 (thorough) exhaustive along "
+             "paths, deeper only by simulation. Three analysed deviations are known findings, matched only when the "
+             "observed spelling equals the spec's transcription of the deviating rule (Mode = dev).",
+        design="6/C02"),
+    "C08": dict(
+        category="model_checking",
+        technique="TLA+ instantiation oracle (Product, typedef resolution, naming) evaluated by TLC; structural "
+                  "comparison incl. error outcomes; laws checked by TLC (InstLaws)",
+        text="Same pipeline as C02 but judging count, order, names, C++ names, scope and pass-through of every item of "
+             "the instantiated tree, and the outcome (a module whose typedef target is missing or ambiguous must be "
+             "rejected, an instantiable one must not). Universe: every sequence of <=2 (quick) / <=3 (thorough) "
+             "declarations from templates with 1-3 parameters and list lengths 0-5, typedefs of classes / functions / "
+             "forward declarations in and across namespaces, pass-through declarations.",
+        note="typedef of a non-template is treated as outside the dialect (not judged).",
+        design="6/C08"),
+    "C13": dict(
+        category="model_checking",
+        technique="TLA+ variant transformations (Variants.tla) + laws model-checked on the oracle; relational replay of "
+                  "original and variants through the implementation",
+        text="TLC proves on the oracle that keeping one combination, reversing the lists and renaming parameters leave "
+             "each instantiation unchanged; TLC renders these variants for every derived module and the harness compares "
+             "instantiated records, per-class pybind blocks, and (renaming) whole pybind and MATLAB outputs.",
+        note="Variants are applied to all templated declarations of a module at once. One known finding (consequence of "
+             "C02-deep-param).",
+        design="6/C13"),
 }
 
 NOT_YET = "not yet built in this session; planned per DESIGN.md section 6"
